@@ -47,6 +47,101 @@ func init() {
 		}
 	}
 	levelOverride["C19"] = "fault_enumeration"
+	// the saver runs next to the commands: all schedules of one saver tick against one or two writing
+	// connections, then the final save of a shutdown, a restart, and the comparison as in part A
+	extraGroups["C19"] = []exploreGroup{{"saverace", 2, 3}}
+	extraScenarios["C19/saverace"] = saveRaceScenarios
+}
+
+type saveRaceScenario struct {
+	name    string
+	setup   [][]string
+	writers [][][]string
+	ticks   int
+}
+
+func (sr *saveRaceScenario) body(x *Exec) {
+	vos.ResetFS()
+	verifrt.SetSerial(true)
+	vi := redisemu.VNew(c19Base)
+	x.Inst = vi
+	fx := vi.NewClient()
+	for _, cmd := range sr.setup {
+		fx.Do(cmd...)
+	}
+	var saveErr error
+	clients := make([]*redisemu.VClient, len(sr.writers))
+	for i := range clients {
+		clients[i] = vi.NewClient()
+	}
+	verifrt.SetSerial(false)
+	verifrt.GoNamed("saver", func() {
+		for t := 0; t < sr.ticks; t++ {
+			if e := vi.Save(); e != nil && saveErr == nil {
+				saveErr = e
+			}
+		}
+	})
+	for i := range sr.writers {
+		i := i
+		verifrt.GoNamed(fmt.Sprintf("conn%d", i+1), func() {
+			for _, cmd := range sr.writers[i] {
+				x.do(i+1, clients[i], cmd...)
+			}
+		})
+	}
+	verifrt.AwaitQuiescence()
+	verifrt.SetSerial(true)
+	// shutdown: the final save; then a restart on the same path
+	if e := vi.Save(); e != nil && saveErr == nil {
+		saveErr = e
+	}
+	before, err1 := dumpDBs(fx)
+	vi2 := redisemu.VNew(c19Base)
+	after, err2 := dumpDBs(vi2.NewClient())
+	x.Extra["before"], x.Extra["after"] = before, after
+	x.Extra["err"] = fmt.Sprint(saveErr, err1, err2)
+	x.Final = strings.Join(after, "|")
+}
+
+func (sr *saveRaceScenario) check(x *Exec) [][2]string {
+	before, _ := x.Extra["before"].([]string)
+	after, _ := x.Extra["after"].([]string)
+	if e, _ := x.Extra["err"].(string); e != "<nil> <nil> <nil>" && e != "" {
+		return [][2]string{{"save-error", e}}
+	}
+	if len(before) == 0 || len(before) != len(after) {
+		return [][2]string{{"scenario-did-not-finish", fmt.Sprintf("terminal %s", x.Sched.Term)}}
+	}
+	for i := range before {
+		if before[i] != after[i] {
+			return [][2]string{{fmt.Sprintf("acknowledged-write-lost|db%d", c19DBs[i]), fmt.Sprintf("a saver tick ran next to the commands; after the final save and a restart database %d is {%s}, before the shutdown it was {%s}", c19DBs[i], clipB([]byte(after[i])), clipB([]byte(before[i])))}}
+		}
+	}
+	return nil
+}
+
+func saveRaceScenarios(tier string) []*Scenario {
+	var out []*Scenario
+	fix := [][]string{{"SET", "ks", "0"}, {"RPUSH", "kl", "e"}, {"HSET", "kh", "f", "1"}, {"SELECT", "1"}, {"SET", "other", "db1"}, {"SELECT", "0"}}
+	list := []saveRaceScenario{
+		{"saverace/tick||INCR", fix, [][][]string{{{"INCR", "ks"}}}, 1},
+		{"saverace/tick||RPUSH+LSET", fix, [][][]string{{{"RPUSH", "kl", "f"}, {"LSET", "kl", "0", "w"}}}, 1},
+		{"saverace/tick||FLUSHDB", fix, [][][]string{{{"FLUSHDB"}}}, 1},
+		{"saverace/tick||db1:SET", fix, [][][]string{{{"SELECT", "1"}, {"SET", "other", "changed"}}}, 1},
+		{"saverace/tick+tick||INCR||HSET", fix, [][][]string{{{"INCR", "ks"}}, {{"HSET", "kh", "g", "2"}}}, 2},
+		{"saverace/tick||EXPIRE+PERSIST", fix, [][][]string{{{"EXPIRE", "ks", "100"}, {"PERSIST", "ks"}, {"DEL", "kh"}}}, 1},
+	}
+	if tier == "thorough" {
+		list = append(list,
+			saveRaceScenario{"saverace/tick+tick||SET-new||DEL", fix, [][][]string{{{"SET", "kn", "1"}}, {{"DEL", "kl"}}}, 2},
+			saveRaceScenario{"saverace/first-save||SET", nil, [][][]string{{{"SET", "first", "1"}, {"SELECT", "2"}, {"SET", "second", "2"}}}, 1})
+	}
+	for i := range list {
+		sr := &list[i]
+		out = append(out, &Scenario{Name: sr.name, Body: sr.body, Check: sr.check, Horizon: 400000, MapOrder: true})
+	}
+	return out
 }
 
 // ---- observable state -------------------------------------------------------------------------------
